@@ -1877,7 +1877,11 @@ class MultiUserChannelMatrix:  # pylint: disable=R0902
             aux = np.dot(Ukl_H, np.dot(self.get_Hkl(k, k), Fkl))
             numerator = np.dot(aux, aux.transpose().conjugate())
             denominator = np.dot(Ukl_H, np.dot(Bkl_all_l[l], Ukl))
-            SINR_kl = numerator.item() / denominator.item()
+            # Note: with numpy scalars a zero denominator (no interference
+            # and no noise) gives an infinite SINR instead of raising
+            # ZeroDivisionError
+            with np.errstate(divide='ignore', invalid='ignore'):
+                SINR_kl = numerator[0, 0] / denominator[0, 0]
             # The imaginary part should be negligible
             SINR_k[l] = np.abs(SINR_kl)
 
@@ -1960,7 +1964,11 @@ class MultiUserChannelMatrix:  # pylint: disable=R0902
             aux = np.dot(Ukl_H, np.dot(Hk, Fkl))
             numerator = np.dot(aux, aux.transpose().conjugate())
             denominator = np.dot(Ukl_H, np.dot(Bkl_all_l[l], Ukl))
-            SINR_kl = numerator.item() / denominator.item()
+            # Note: with numpy scalars a zero denominator (no interference
+            # and no noise) gives an infinite SINR instead of raising
+            # ZeroDivisionError
+            with np.errstate(divide='ignore', invalid='ignore'):
+                SINR_kl = numerator[0, 0] / denominator[0, 0]
             # The imaginary part should be negligible
             SINR_k[l] = np.abs(SINR_kl)
 
